@@ -436,31 +436,126 @@ func (e *Env) returnsErr(c *schema.Ctx, r ast.Expr, errObj types.Object) bool {
 	return false
 }
 
-// filenamesWriters: the value stored per file is the FileSet's name of that very file / the
-// package's file-map key.
+// filenamesWriters: the value stored per file is the FileSet's *file name* of the file that
+// contains the decorated node (not a //line-adjusted position), resp. the package's file-map key;
+// the key is the dst file produced for that very node.
 func (e *Env) filenamesWriters(c *schema.Ctx) {
 	pkg := e.Prog.Pkg(load.PkgDecorator)
+	info := pkg.TypesInfo
 	fd := load.FuncDecl(pkg, "Decorator", "DecorateNode")
 	if fd == nil {
 		return
 	}
-	var got []string
+	// n: the node parameter; out: result of decorateNode(..., n)
+	var nParam types.Object
+	for _, p := range fd.Type.Params.List {
+		for _, nm := range p.Names {
+			nParam = info.Defs[nm]
+		}
+	}
+	var outObj types.Object
 	ast.Inspect(fd.Body, func(n ast.Node) bool {
 		as, ok := n.(*ast.AssignStmt)
-		if !ok || len(as.Lhs) != 1 {
+		if !ok || len(as.Rhs) != 1 || len(as.Lhs) != 2 {
 			return true
 		}
-		if ix, ok := as.Lhs[0].(*ast.IndexExpr); ok {
-			if se, ok := ix.X.(*ast.SelectorExpr); ok && se.Sel.Name == "Filenames" {
-				got = append(got, c.ExprStr(ix.Index)+" = "+c.ExprStr(as.Rhs[0]))
+		if call, ok := as.Rhs[0].(*ast.CallExpr); ok && schema.IsMethod(c.Callee(call), load.PkgDecorator, "fileDecorator", "decorateNode") && len(call.Args) == 5 {
+			if id, ok := call.Args[4].(*ast.Ident); ok && c.ObjOf(id) == nParam {
+				if oid, ok := as.Lhs[0].(*ast.Ident); ok {
+					outObj = c.ObjOf(oid)
+				}
 			}
 		}
 		return true
 	})
-	want := []string{"d.Dst.Nodes[v].(*File) = k", "out.(*File) = d.Fset.File(n.Pos()).Name()"}
-	ok := len(got) == 2 && got[0] == want[0] && got[1] == want[1]
-	e.Run.Check("R-SAVE", "file names recorded from the file set / package map for the decorated file itself", e.Prog.Pos(fd.Pos()), ok,
-		fmt.Sprintf("stores: %v; expected %v", got, want))
+	rootedAtCaseVar := func(e2 ast.Expr, want func(types.Object) bool) bool {
+		ok := false
+		ast.Inspect(e2, func(n ast.Node) bool {
+			if id, isID := n.(*ast.Ident); isID {
+				if o := c.ObjOf(id); o != nil && want(o) {
+					ok = true
+				}
+			}
+			return true
+		})
+		return ok
+	}
+	ast.Inspect(fd.Body, func(n ast.Node) bool {
+		cc, ok := n.(*ast.CaseClause)
+		if !ok || len(cc.List) != 1 {
+			return true
+		}
+		_, tn := schema.NamedTypeName(info.TypeOf(cc.List[0]))
+		caseVar := info.Implicits[cc]
+		for _, st := range cc.Body {
+			ast.Inspect(st, func(m ast.Node) bool {
+				as, ok := m.(*ast.AssignStmt)
+				if !ok || len(as.Lhs) != 1 || len(as.Rhs) != 1 {
+					return true
+				}
+				ix, ok := as.Lhs[0].(*ast.IndexExpr)
+				if !ok {
+					return true
+				}
+				se, ok := ix.X.(*ast.SelectorExpr)
+				if !ok || se.Sel.Name != "Filenames" {
+					return true
+				}
+				pos := e.Prog.Pos(as.Pos())
+				switch tn {
+				case "File":
+					// value: <fset>.File(<pos rooted at the case's n>).Name()
+					good := false
+					if call, ok := as.Rhs[0].(*ast.CallExpr); ok && len(call.Args) == 0 && funcKey(c.Callee(call)) == "(*go/token.File).Name" {
+						if inner, ok := call.Fun.(*ast.SelectorExpr).X.(*ast.CallExpr); ok && len(inner.Args) == 1 && funcKey(c.Callee(inner)) == "(*go/token.FileSet).File" {
+							good = rootedAtCaseVar(inner.Args[0], func(o types.Object) bool { return o == caseVar })
+						}
+					}
+					e.Run.Check("R-SAVE", "file name recorded for a decorated file is the file set's name of that file", pos, good,
+						"value stored is "+c.ExprStr(as.Rhs[0])+"; it must be Fset.File(<position of n>).Name() — the path the file was read from (Position().Filename follows //line directives and names another file)")
+					// key: out.(*dst.File)
+					keyOK := false
+					if ta, ok := ix.Index.(*ast.TypeAssertExpr); ok {
+						if id, ok := ta.X.(*ast.Ident); ok && c.ObjOf(id) == outObj && outObj != nil {
+							keyOK = true
+						}
+					}
+					e.Run.Check("R-SAVE", "file name recorded under the dst file decorated from it", pos, keyOK, "key is "+c.ExprStr(ix.Index))
+				case "Package":
+					// inside `for k, v := range n.Files`: Filenames[d.Dst.Nodes[v].(*dst.File)] = k
+					good := false
+					var rs *ast.RangeStmt
+					ast.Inspect(st, func(r ast.Node) bool {
+						if x, ok := r.(*ast.RangeStmt); ok && x.Body.Pos() <= as.Pos() && as.End() <= x.Body.End() {
+							rs = x
+						}
+						return true
+					})
+					if rs != nil {
+						p, okp := c.Path(rs.X, caseVar)
+						kid, okk := rs.Key.(*ast.Ident)
+						vid, okv := rs.Value.(*ast.Ident)
+						rid, okr := as.Rhs[0].(*ast.Ident)
+						if okp && p == "Files" && okk && okv && okr && c.ObjOf(rid) == info.Defs[kid] {
+							if ta, ok := ix.Index.(*ast.TypeAssertExpr); ok {
+								if mix, ok := ta.X.(*ast.IndexExpr); ok {
+									if id, ok := mix.Index.(*ast.Ident); ok && c.ObjOf(id) == info.Defs[vid] && strings.HasSuffix(c.ExprStr(mix.X), ".Dst.Nodes") {
+										good = true
+									}
+								}
+							}
+						}
+					}
+					e.Run.Check("R-SAVE", "file names of a package recorded from its file map, keyed by the dst file of each entry", pos, good,
+						"expected `for k, v := range n.Files { Filenames[Dst.Nodes[v].(*dst.File)] = k }`; found "+c.ExprStr(ix.Index)+" = "+c.ExprStr(as.Rhs[0]))
+				default:
+					e.Run.Violation("R-SAVE", "Filenames written for node kind "+tn, pos, "only files and packages have file names")
+				}
+				return true
+			})
+		}
+		return true
+	})
 }
 
 func init() {
